@@ -15,7 +15,8 @@ EXTENDS Integers, Sequences, FiniteSets, TLC, Json
 Configs    == {"right", "wrongnode", "wrongkey"}          \* the client's bridge line vs the bridge's identity
 Responders == {"genuine", "impostor"}                      \* impostor: valid mark + MAC from public info, AUTH from its own key
 Mods       == {"none", "flip_repr", "flip_auth", "flip_pad", "flip_mark", "flip_mac",
-               "truncate", "replay_old", "loworder_repr"}
+               "truncate", "replay_old", "loworder_repr",
+               "loworder_zeroauth"}   \* low-order Y' AND the AUTH a failed ntor computation leaves behind (all zero)
 
 VARIABLES cfg, responder, mod, stage, done
 vars == <<cfg, responder, mod, stage, done>>
@@ -32,7 +33,7 @@ MarkFound(c, r, m) == /\ Answers(c, r) /\ m \notin {"flip_mark", "flip_repr", "t
 MacOk(c, r, m) == MarkFound(c, r, m) /\ m \notin {"flip_auth", "flip_pad", "flip_mac"}
 \* ntor: fails on a low-order server key; AUTH matches only if the responder holds the private key of the
 \* identity the client is configured with, for THIS client ephemeral key
-AuthOk(c, r, m) == MacOk(c, r, m) /\ m \notin {"loworder_repr", "replay_old"} /\ r = "genuine" /\ c = "right"
+AuthOk(c, r, m) == MacOk(c, r, m) /\ m \notin {"loworder_repr", "loworder_zeroauth", "replay_old"} /\ r = "genuine" /\ c = "right"
 Established(c, r, m) == AuthOk(c, r, m)
 
 Init == cfg = "right" /\ responder = "genuine" /\ mod = "none" /\ stage = "start" /\ done = FALSE
